@@ -8,6 +8,9 @@ pub mod obs;
 pub mod oracle;
 pub mod oracle2;
 pub mod oracle3;
+pub mod oracle4;
+pub mod oracle5;
+pub mod oracle6;
 pub mod plan;
 pub mod providers;
 pub mod run;
